@@ -897,10 +897,50 @@ def reported_flow_problems(i):
     return out
 
 
+def dep_oracle_violation(i, args):
+    """oracle sanity (C11): whatever source value dynamically arrives at an argument of a sink call must be a dependence of
+    vlib.flowdep's reading (the table `dep` is computed natively by the check, outside tracing)."""
+    p = BATCH["programs"][i]
+    dep = p.get("_dep")
+    if dep is None:
+        dep = p["_dep"] = frozenset((a, b, c) for a, b, c in p.get("dep", []))
+    it = Interp({"m": p["rows"]}, fuel=2500, inputs=list(args))
+    try:
+        it.load_module("m")
+    except GirError:
+        pass
+    except (ArithmeticError, LookupError, TypeError, ValueError, AttributeError, RecursionError):
+        pass
+    for sink_stmt, arg_origins in it.sink_events:
+        for k, origins in enumerate(arg_origins):
+            for src in origins:
+                if (src, sink_stmt, k) not in dep:
+                    return f"source value of statement {src} arrives at argument {k} of the sink call {sink_stmt}, but flowdep derives no dependence"
+    return None
+
+
+def check_dep_oracle(pidx: int, a: int, b: int, c: bool) -> bool:
+    """
+    pre: _pre(pidx, a, b)
+    post: _
+    """
+    why = dep_oracle_violation(pidx, (a, b, c))
+    if why:
+        return fail("dep-oracle", prog=BATCH["programs"][pidx]["name"], pidx=pidx, args=[a, b, c], why=why)
+    return True
+
+
 _replay_scope = replay
 
 
 def replay(func, cex):   # noqa: F811
+    if func == "check_dep_oracle":
+        prepare({"batch": SLICE["batch"]}) if not BATCH["programs"] else None
+        a, b, c = cex["args"]
+        why = dep_oracle_violation(cex["pidx"], (a, b, bool(c)))
+        p = BATCH["programs"][cex["pidx"]]
+        return {"violated": bool(why), "observed": why, "what": f"ORACLE: program {p['name']} inputs ({a}, {b}, {bool(c)}): {why}",
+                "fingerprint": f"dep-oracle:{p['name']}"}
     if func.startswith("check_taint"):
         prepare({"batch": SLICE["batch"]}) if not BATCH["programs"] else None
         i = cex["pidx"]
